@@ -95,6 +95,11 @@ CHECKS = {
   text="Every small AST and random larger programs are rewritten at every position: widen / replace / remove blank runs, insert a blank or an annotation between adjacent tokens, annotation or comment line inside a blank run, trailing blanks before line breaks and at the end, comment lines after line breaks and at the start, parentheses around every operand, effect-free side-effect blocks added after every value or group and dropped where present, plus random combinations of 2..7 rewrites. The rewritten text must parse to the same tree (modulo trivia, added groups, added blocks) and produce the same value and resolve-call sequence on both stores. Held on the programs and rewrite positions observed.",
   note="trusts: the reference lexer/parser as the judge of where blanks may be added or removed; programs with side-effect blocks have no reference tree and only get rewrites that need no confirmation plus the structural ones",
   design="DESIGN.md §5 C18"),
+ "C19": dict(
+  technique="runtime monitor: before/after read-back of every observable root (registers, input-value stack, frame chain, symbol names, retained prefix, mapped extra roots) around optimize / clone_data on random value graphs, checked against a shadow model and a block-layout invariant hook; plus fault-injection style scheduling of optimize at every step boundary of running programs, compared with the undisturbed run",
+  text="Random value graphs with shared sub-values are built through the trait on BasicGarnishData, values pushed on the three stacks, symbol names registered, a random retention point chosen, clone_data applied to random values and optimize applied 1..3 times with random extra roots (some already on a stack); every register, input value, frame return address, symbol name, retained value and mapped root is read back and must equal what it was and what the shadow model says; the heap block invariant is checked after every optimize. Generated programs are run undisturbed and with optimize injected before step k for every k (sampled beyond 48 steps), before every step and before every third step; value and step count must not change. Held on the graphs, histories and injection points observed.",
+  note="trusts: the protocol 'retain_all_current_data() after build' (constants named by instructions lie in the retained prefix); read-back through the public getters as the notion of 'structurally identical'",
+  design="DESIGN.md §5 C19"),
 }
 
 NOT_YET = "check not built yet in this round (work in progress; will be claimed once its monitor exists)"
